@@ -63,17 +63,19 @@ def _coarse_keys(e):
     adm = "%d%d" % (last["pool"], last["block"])
     ks = {"st|%s|%s|%s" % (op, adm, s["st"]), "per|%s|%s|%d" % (op, adm, s["per"])}
     n = last["n"]
-    if n in ("Delegate", "Undelegate", "KillDelegatorX", "GoOnline", "GoOffline", "Evidence", "Flush", "Kill", "EpochEnd", "DelegateDX"):
+    if n in ("Delegate", "Undelegate", "KillDelegatorX", "KillDelegatorXByG", "GoOnline", "GoOffline", "Evidence", "Flush", "Kill", "EpochEnd", "DelegateDX"):
         ks.add("dlg|%s|%s|%s%s%s" % (op, adm, s["dg"], s["sw"], s["dnew"]))
     if n in ("GoOnline", "GoOffline", "Flush", "Penalty", "Delegate", "Kill", "EpochEnd"):
         ks.add("onl|%s|%s|%s%s%s" % (op, adm, s["on"], s["psw"], s["pen"]))
     if n in ("Delegate", "DelegateDX", "KillDelegatorD", "GoOnline", "Flush", "Kill", "EpochEnd"):
         ks.add("pool|%s|%s|%s%s" % (op, adm, s["dd"], s["dst"]))
     if n in ("Kill", "KillDelegatorX", "KillInviteeX", "EpochEnd", "ReplenishX", "ActivateOther"):
-        ks.add("stk|%s|%s|%s%s%s%s" % (op, adm, s["stk"], s["lck"], s["rep"], last["rw"]))
+        ks.add("stk|%s|%s|%s%s%s%s%s" % (op, adm, s["st"], s["stk"], s["lck"], s["rep"], last["rw"]))
+    if n in ("Flush", "Kill", "KillInviteeX", "KillDelegatorX", "KillInviteeF", "KillDelegatorD", "EpochEnd"):
+        ks.add("upd|%s|%s|%s%s%s%s" % (n, s["on"], s["psw"], s["sw"], s["dd"], s["pen"]))
     if n in ("SubmitFlip", "DeleteFlip", "AnswersHash", "ShortAnswers", "LongAnswers", "Evidence"):
         ks.add("flip|%s|%s|%s%s" % (op, adm, s["nfl"] >= s["req"], len(s["vtx"])))
-    if n in ("InviteF", "KillInviteeF", "ActivateF", "ActivateOther", "InviteX", "KillInviteeX"):
+    if n in ("InviteF", "KillInviteeF", "ActivateF", "ActivateOther", "InviteX", "KillInviteeX", "KillInviteeXByG"):
         ks.add("inv|%s|%s|%s%s%s%s" % (op, adm, s["xinv"] > 0, s["fst"], s["flnk"], s["lnk"]))
     return ks
 
@@ -103,15 +105,18 @@ def _select(ctx, exports, rnd, quick):
         uniq.setdefault(json.dumps(e["path"], sort_keys=True) + e["init"], e)
     cands = sorted(uniq.values(), key=lambda e: (_cost(e["path"]), len(e["path"]), json.dumps(e["path"], sort_keys=True), e["init"]))
     keyfn = _coarse_keys if quick else (lambda e: set(e["keys"]))
-    best, must = {}, {}
+    near, must = collections.defaultdict(list), {}
     for e in cands:                      # sorted by cost: the first one seen is the cheapest
         last = e["path"][-1]
         must.setdefault((last["n"], last["out"], last["pool"], last["block"]), e)
         for k in keyfn(e):
-            best.setdefault(k, e)
+            if not near[k] or (_cost(e["path"]) <= _cost(near[k][0]["path"]) + 1 and len(near[k]) < 4):
+                near[k].append(e)
+    # the representative of a stratum: seeded choice among the cheapest paths the model printed for it
+    best = {k: near[k][rnd.randrange(len(near[k]))] for k in sorted(near)}
     rest = sorted(best)
     rnd.shuffle(rest)
-    budget = 2300 if quick else 10 ** 9
+    budget = 3400 if quick else 10 ** 9
     chosen, covered, paid, blocks = {}, set(), set(), 0
 
     def take(e, force):
@@ -142,13 +147,15 @@ def _select(ctx, exports, rnd, quick):
     for g in groups.values():
         size = 5 if _pending(g["pre"]) else 24        # a pending switch must meet its identity-update block within the switch range
         if g["pre"]["per"] == 4:
-            # the sixth block after the start of the after-long period that carries no ceremony transaction ends the epoch
+            # the fifth block after the start of the after-long period ends the epoch unless ceremony transactions came: four attempts fit
             k = 0
             for st in g["prefix"][::-1]:
                 if st["n"] == "NextPeriod":
                     break
                 k += 1
-            size = max(1, 4 - k)
+            size = max(1, 3 - k)
+            if k >= 3:
+                g["others"], g["loops"] = g["others"] + g["loops"], []      # no room: every path on its own
         loops, others = g["loops"], list(g["others"])
         for i in range(0, len(loops), size):
             steps = [e["path"][-1] for e in loops[i:i + size]]
